@@ -21,6 +21,7 @@ import (
 	"fmt"
 	"net"
 	"net/netip"
+	"reflect"
 
 	"github.com/osrg/gobgp/v4/api"
 	"github.com/osrg/gobgp/v4/pkg/packet/bgp"
@@ -555,6 +556,9 @@ func NewEthernetSegmentIdentifierFromNative(a *bgp.EthernetSegmentIdentifier) (*
 }
 
 func unmarshalESI(a *api.EthernetSegmentIdentifier) (*bgp.EthernetSegmentIdentifier, error) {
+	if a == nil {
+		return nil, errors.New("ethernet segment identifier is not set")
+	}
 	return &bgp.EthernetSegmentIdentifier{
 		Type:  bgp.ESIType(a.Type),
 		Value: a.Value,
@@ -1392,6 +1396,9 @@ func UnmarshalLsAttribute(a *api.LsAttribute) (*bgp.LsAttribute, error) {
 			}
 		}
 		if a.Srv6Sid.Srv6BgpPeerNodeSid != nil {
+			if id, err := netip.ParseAddr(a.Srv6Sid.Srv6BgpPeerNodeSid.PeerBgpId); err != nil || !id.Is4() {
+				return nil, fmt.Errorf("invalid peer BGP identifier: %q", a.Srv6Sid.Srv6BgpPeerNodeSid.PeerBgpId)
+			}
 			lsSrv6SID.Srv6BgpPeerNodeSID = &bgp.LsSrv6BgpPeerNodeSID{
 				Flags:     uint8(a.Srv6Sid.Srv6BgpPeerNodeSid.Flags),
 				Weight:    uint8(a.Srv6Sid.Srv6BgpPeerNodeSid.Weight),
@@ -1975,7 +1982,16 @@ func UnmarshalNLRI(rf bgp.Family, an *api.NLRI) (bgp.NLRI, error) {
 		}
 	case *api.NLRI_SrPolicy:
 		v := n.SrPolicy
-		nlri, _ = bgp.NewSRPolicy(rf, v.Length, v.Distinguisher, v.Color, v.Endpoint)
+		// length (bits) = distinguisher + color + endpoint; anything else cannot be serialised
+		if want := 64 + 8*len(v.Endpoint); int(v.Length) != want ||
+			rf == bgp.RF_SR_POLICY_IPv4 && len(v.Endpoint) != 4 || rf == bgp.RF_SR_POLICY_IPv6 && len(v.Endpoint) != 16 {
+			return nil, fmt.Errorf("invalid sr policy nlri: length %d, endpoint of %d octets for %s", v.Length, len(v.Endpoint), rf)
+		}
+		sr, err := bgp.NewSRPolicy(rf, v.Length, v.Distinguisher, v.Color, v.Endpoint)
+		if err != nil {
+			return nil, err
+		}
+		nlri = sr
 	case *api.NLRI_LabeledVpnIpPrefix:
 		v := n.LabeledVpnIpPrefix
 		rd, err := UnmarshalRD(v.Rd)
@@ -2256,7 +2272,8 @@ func UnmarshalNLRI(rf bgp.Family, an *api.NLRI) (bgp.NLRI, error) {
 		}
 	}
 
-	if nlri == nil {
+	// A constructor that refused its arguments returns a nil pointer, which is a non-nil bgp.NLRI.
+	if nlri == nil || reflect.ValueOf(nlri).Kind() == reflect.Pointer && reflect.ValueOf(nlri).IsNil() {
 		return nil, fmt.Errorf("invalid nlri for %s family: %s", rf.String(), an.GetNlri())
 	}
 	return nlri, nil
@@ -2701,7 +2718,7 @@ func unmarshalExComm(a *api.ExtendedCommunitiesAttribute) (*bgp.PathAttributeExt
 			v := comm.Unknown
 			community = bgp.NewUnknownExtended(bgp.ExtendedCommunityAttrType(v.Type), v.Value)
 		}
-		if community == nil {
+		if community == nil || reflect.ValueOf(community).Kind() == reflect.Pointer && reflect.ValueOf(community).IsNil() {
 			return nil, fmt.Errorf("invalid extended community: %T", c.GetExtcom())
 		}
 		communities = append(communities, community)
@@ -3378,9 +3395,12 @@ func MarshalSRBSID(bsid *bgp.TunnelEncapSubTLVSRBSID) (*api.SRBindingSID, error)
 func UnmarshalSRBSID(bsid *api.TunnelEncapSubTLVSRBindingSID) (bgp.TunnelEncapSubTLVInterface, error) {
 	switch v := bsid.GetBsid().(type) {
 	case *api.TunnelEncapSubTLVSRBindingSID_SrBindingSid:
-		b, err := bgp.NewBSID(v.SrBindingSid.Sid)
+		b, err := bgp.NewBSID(v.SrBindingSid.GetSid())
 		if err != nil {
 			return nil, err
+		}
+		if b == nil { // no binding SID value (sub-TLV of length 2), as the decoder represents it
+			b = &bgp.BSID{Value: []byte{}}
 		}
 		flags := uint8(0x0)
 		if v.SrBindingSid.SFlag {
@@ -3398,9 +3418,12 @@ func UnmarshalSRBSID(bsid *api.TunnelEncapSubTLVSRBindingSID) (bgp.TunnelEncapSu
 			Flags: flags,
 		}, nil
 	case *api.TunnelEncapSubTLVSRBindingSID_Srv6BindingSid:
-		b, err := bgp.NewBSID(v.Srv6BindingSid.Sid)
+		b, err := bgp.NewBSID(v.Srv6BindingSid.GetSid())
 		if err != nil {
 			return nil, err
+		}
+		if b == nil {
+			b = &bgp.BSID{Value: []byte{}}
 		}
 		result := &bgp.TunnelEncapSubTLVSRv6BSID{
 			TunnelEncapSubTLV: bgp.TunnelEncapSubTLV{
@@ -3538,6 +3561,8 @@ func UnmarshalSRSegments(s []*api.TunnelEncapSubTLVSRSegmentList_Segment) ([]bgp
 				}
 			}
 			segments[i] = seg
+		default:
+			return nil, fmt.Errorf("invalid segment type: %T", s[i].GetSegment())
 		}
 	}
 	return segments, nil
@@ -3597,6 +3622,9 @@ func UnmarshalSubTLVs(stlvs map[uint32]*api.SRv6SubTLVs) (uint16, []bgp.PrefixSI
 					SubSubTLVs: make([]bgp.PrefixSIDTLVInterface, 0),
 				}
 				infoProto := raw.GetInformation()
+				if infoProto == nil {
+					return 0, nil, errors.New("SRv6 sub TLV without information")
+				}
 				info.SID = make([]byte, len(infoProto.Sid))
 				copy(info.SID, infoProto.Sid)
 				// TODO Once RFC is published add processing of flags
@@ -3645,6 +3673,9 @@ func UnmarshalSubSubTLVs(stlvs map[uint32]*api.SRv6SubSubTLVs) (uint16, []bgp.Pr
 					},
 				}
 				structureProto := raw.GetStructure()
+				if structureProto == nil {
+					return 0, nil, errors.New("SRv6 sub sub TLV without structure")
+				}
 				structure.LocatorBlockLength = uint8(structureProto.LocatorBlockLength)
 				structure.LocatorNodeLength = uint8(structureProto.LocatorNodeLength)
 				structure.FunctionLength = uint8(structureProto.FunctionLength)
